@@ -74,7 +74,7 @@ func (e *env) parallelCases(fn func(idx int, raw json.RawMessage, rng *rand.Rand
 	close(next)
 	var wg sync.WaitGroup
 	var firstErr error
-	for w := 0; w < 12; w++ {
+	for w := 0; w < nWorkers(); w++ {
 		wg.Add(1)
 		seed := e.seed*1000 + int64(w)
 		go func() {
@@ -221,6 +221,15 @@ func (e *env) eachCase(fn func(raw json.RawMessage) error) error {
 }
 
 var modes = map[string]func(e *env) error{}
+
+// nWorkers: how many goroutines run commands of the code under test side by side (VERIF_PAR; default 12).
+// The orchestration falls back to 1 when the code under test turns out not to be re-entrant.
+func nWorkers() int {
+	if n, err := strconv.Atoi(os.Getenv("VERIF_PAR")); err == nil && n >= 1 {
+		return n
+	}
+	return 12
+}
 
 // panicSite returns the first frame of the panicking goroutine's stack that is not in the runtime
 func panicSite(stack string) string {
